@@ -10,7 +10,7 @@ CHECKS = {
    note="Q(cfg) over-approximates 'bounded by configured timeouts and macro lengths'; KbdOut is the project's simulated_output recorder; four genuine stuck-output defect classes are known findings, each matched by a cause tag (custom events dropped: probe H5; input-queue overflow; self-retriggering action; > 4 concurrent macros); dedicated capacity populations drive the 64-slot state vector, the one-shot table and concurrent tap-holds to their limits with custom actions pressed there."),
  "C02": dict(cat="exploration", ref="D5 C02", tech="deterministic simulation with hostile-input fault injection (dup/orphan/flood/any code/clock jump), crash+hang oracle",
    text="Seeded search over parser-accepted configurations generated from the whole grammar (boundary numerics, every action in every context) x hostile histories (any key code, repeated presses, orphan releases, floods of up to 300 events in one ms, repeat/tap events, TCP-style virtual key ops, 70 s gaps, clock jumps) in ticking and idle-blocking mode; oracle: no panic (overflow checks and debug assertions ON), no abort/stack overflow (worker death attributed to the run), no Err from tick, no hang (per-run watchdog).",
-   note="sampling, not enumeration; cmd/clipboard/xset actions excluded at run time; build profile differs from the shipped release profile on purpose (overflow checks on)."),
+   note="sampling, not enumeration; cmd/clipboard/xset actions excluded at run time; build profile differs from the shipped release profile on purpose (overflow checks on). One run in twelve is repeated on the real processing-loop thread (executor B) under seeded interleavings, step costs and 2-40 ms stalls: the loop must not panic, deadlock or spin and must exit when its channel closes."),
  "C03": dict(cat="fault_enumeration", ref="D5 C03", tech="seeded fault injection on the storage seam (torn/corrupted/lost/duplicated bytes, missing/empty/self-including/non-UTF-8 files) + structure-aware mutation; totality oracle",
    text="Every valid configuration available (392 corpus files from samples, docs and tests + grammar-generated ones) is subjected to seeded storage faults and structure-aware mutations, then loaded through new_from_str (in-memory file provider) or new_from_file (real files on tmpfs). Oracle: returns Ok or Err, never panics/aborts/hangs; an error span lies inside the file it names on char boundaries; rendering the miette report does not panic.",
    note="No schedule or clock is involved: the technique contributes the fault model on the bytes the parser reads. Text <= 64 KiB, paren depth <= 64."),
